@@ -15,7 +15,9 @@ FInit == fpc = "start" /\ fk \in First..Last /\ Init
 FEmit == /\ fpc = "start" /\ fpc' = "done" /\ fk' = fk /\ UNCHANGED pvars
          /\ fk = First => PrintT(<<"FAMILY", ToJson([fam |-> Fam, size |-> FamSize(Fam)])>>)
          /\ LET c == FamCase(Fam, fk) IN
-            PrintT(<<"CASE", ToJson([idx |-> fk, id |-> c.id, files |-> c.files, nostd |-> c.nostd])>>)
+            IF Fam \in HistFamilies       \* a history: its programs in order, each [id, files, nostd, expect]
+            THEN PrintT(<<"CASE", ToJson([idx |-> fk, id |-> c.id, steps |-> c.steps])>>)
+            ELSE PrintT(<<"CASE", ToJson([idx |-> fk, id |-> c.id, files |-> c.files, nostd |-> c.nostd])>>)
 FNext == FEmit
 FSpec == FInit /\ [][FNext]_fvars
 FTypeOk == fpc \in {"start", "done"} /\ fk \in 1..FamSize(Fam)
